@@ -187,20 +187,27 @@ WORD_SOURCES = re.compile(
     r"(util::bigint::BigInt::checked_into(_nonzero_usize)?$|util::bigint::BigInt::maybe_into$|expr::expression::Value::(expect_usize|expect_nonzero_usize|as_usize)$"
     r"|Expr>::try_eval_usize$|syntax::excerpt::excerpt_as_usize$|core::num::<impl usize>::from_str_radix$|core::str::<impl str>::parse$)")
 DATA_SOURCES = re.compile(r"(::len$|::count$|::capacity$|count_ones$|::bits$|::min_size$|::size_or_min_size$)")
-KEEP_ARG0 = re.compile(r"(Option::<T>::unwrap|Option::<T>::unwrap_or|Option::<T>::expect|Result::<T, E>::unwrap|Result::<T, E>::expect|std::convert::TryInto::try_into|std::convert::TryFrom::try_from|std::convert::Into::into|std::convert::From::from|std::clone::Clone::clone|std::ops::Try::branch|Option::<T>::ok_or|Option::<T>::copied|Option::<T>::cloned|Option::<T>::as_ref|Result::<T, E>::ok|std::ops::Deref::deref)$")
+KEEP_ARG0 = re.compile(r"(Option::<T>::unwrap|Option::<T>::unwrap_or|Option::<T>::expect|Result::<T, E>::unwrap|Result::<T, E>::expect|std::convert::TryInto::try_into|std::convert::TryFrom::try_from|std::convert::Into::into|std::convert::From::from|std::clone::Clone::clone|std::ops::Try::branch|Option::<T>::ok_or|Option::<T>::copied|Option::<T>::cloned|Option::<T>::as_ref|Option::<T>::filter|Result::<T, E>::ok|std::ops::Deref::deref)$")
 
 
 class Taint:
-    def __init__(self, prog, contracts=None):
+    def __init__(self, prog, contracts=None, capped_sources=None):
         self.prog = prog
         self.cap_fld = {}
         self.cap_ret = {}
+        self.audit_fld = set()
+        self.cap_src = {}
         for c in (contracts or []):
             cls = {"DATA": DATA, "U32": U32, "NONE": NONE}[c["class"]]
             if "field" in c:
                 self.cap_fld[(c["struct"], c["field"])] = cls
+                if c.get("audit_stores"):
+                    self.audit_fld.add((c["struct"], c["field"]))
             else:
                 self.cap_ret[c["fn"]] = cls
+        for c in (capped_sources or []):
+            self.cap_src[c["fn"]] = {"DATA": DATA, "U32": U32, "NONE": NONE}[c["class"]]
+        self._tl = {}
         self.loc = defaultdict(int)     # (fid, local) -> class
         self.fld = defaultdict(int)     # (adt, field) -> class
         self.changed = True
@@ -214,8 +221,18 @@ class Taint:
             table[key] = v
             self.changed = True
 
+    def tuple_local(self, f, l):
+        """is local l only ever defined by tuple aggregates of this function?"""
+        k = (f.id, l)
+        if k not in self._tl:
+            ds = f.full_defs(l)
+            self._tl[k] = bool(ds) and all(d[0] == "stmt" and d[3]["k"] == "assign" and d[3]["rv"]["k"] == "agg" and d[3]["rv"].get("agg") == "tuple" for d in ds) and not f.partial_defs(l) and not (1 <= l <= f.arg_count)
+        return self._tl[k]
+
     def place_class(self, f, pl):
         c = self.loc[(f.id, pl["l"])]
+        if pl["p"] and isinstance(pl["p"][0], dict) and "f" in pl["p"][0] and pl["p"][0]["name"].isdigit() and self.tuple_local(f, pl["l"]):
+            c = self.loc[(f.id, (pl["l"], int(pl["p"][0]["name"])))]
         # field projections: struct field summary
         ty = f.local_ty(pl["l"])
         for pr in pl["p"]:
@@ -282,8 +299,10 @@ class Taint:
                     elif k == "binop":
                         a, b = self.op_class(f, rv["l"]), self.op_class(f, rv["r"])
                         op = rv["op"].replace("WithOverflow", "")
-                        if op in ("Add", "Sub", "BitOr", "BitXor", "Shl"):
+                        if op in ("Add", "BitOr", "BitXor", "Shl"):
                             c = max(a, b)
+                        elif op == "Sub":
+                            c = a       # a - b <= a (a wrapping subtraction is flagged by LIM2 itself)
                         elif op == "Mul":
                             c = WORD if (a >= U32 and b >= DATA) or (b >= U32 and a >= DATA) else max(a, b)
                         elif op in ("Div", "Shr", "BitAnd"):
@@ -302,8 +321,11 @@ class Taint:
                                 elif cc:
                                     c = max(c, cc)
                         else:
-                            for o in rv["ops"]:
-                                c = max(c, self.op_class(f, o))
+                            for i_, o in enumerate(rv["ops"]):
+                                cc = self.op_class(f, o)
+                                c = max(c, cc)
+                                if rv.get("agg") == "tuple" and cc and not st["place"]["p"]:
+                                    self.up(self.loc, (f.id, (st["place"]["l"], i_)), cc)
                     elif k == "unop":
                         c = self.op_class(f, rv["x"])
                     if c:
@@ -320,6 +342,11 @@ class Taint:
                             c = U32
                         if re.search(r"\b(u8|u16)\b", ga):
                             c = NONE
+                        if f.id in self.cap_src:
+                            c = min(c, self.cap_src[f.id])
+                    elif re.search(r"::(try_into|try_from)$", cal) and "num_bigint::Big" in (t.get("gargs") or [""])[0] + (t.get("callee_full") or ""):
+                        ga = " ".join((t.get("gargs") or [])[1:])
+                        c = U32 if re.search(r"\bu32\b", ga) else (NONE if re.search(r"\b(u8|u16|i8|i16)\b", ga) else WORD)
                     elif DATA_SOURCES.search(cal) or DATA_SOURCES.search(r):
                         c = DATA
                     elif KEEP_ARG0.search(cal) and t["args"]:
@@ -448,7 +475,7 @@ def lim2(run, only_files=None, rule="LIM2"):
     prog = run.prog
     T = getattr(run, "_taint", None)
     if T is None:
-        T = Taint(prog, run.table("lim").get("contracts")).solve()
+        T = Taint(prog, run.table("lim").get("contracts"), run.table("lim").get("capped_sources")).solve()
         run._taint = T
     spec = run.table("arith")
     audited = {e["key"]: e["reason"] for e in spec["discharged"]}
@@ -504,23 +531,243 @@ def _stable(d):
     return d
 
 
+def _range_iterated(f, bi, si, st):
+    """is the Range built by this statement iterated (into_iter / rev / step_by / next / map ...) rather than used as an index?"""
+    l = st["place"]["l"]
+    seen = {l}
+    work = [l]
+    while work:
+        x = work.pop()
+        for b2, s2, st2 in f.stmts():
+            if st2["k"] == "assign" and st2["rv"]["k"] in ("use", "ref") :
+                src = op_local(st2["rv"]["op"]) if st2["rv"]["k"] == "use" else st2["rv"]["place"]["l"]
+                if src == x and not st2["place"]["p"] and st2["place"]["l"] not in seen:
+                    seen.add(st2["place"]["l"])
+                    work.append(st2["place"]["l"])
+        for b2, t in f.calls():
+            if any(op_local(a_) == x for a_ in t["args"]):
+                c = t.get("callee") or ""
+                if c.endswith("IntoIterator::into_iter") or re.search(r"Iterator::(rev|step_by|map|next|filter|for_each|fold|zip|enumerate|skip|take)$", c):
+                    return True
+    return False
+
+
+def _cap_guard(f, block, arg_op):
+    """is `block` behind the `not greater` edge of a comparison of something computed from the argument with BIGINT_MAX_BITS?"""
+    from rules_tab import value_depends_on
+    al = op_local(arg_op)
+    if al is None:
+        return False
+    root = f.copy_root(al)
+    for bi, si, st in f.stmts():
+        if st["k"] != "assign" or st["rv"]["k"] != "binop" or st["rv"]["op"] not in ("Gt", "Ge", "Lt", "Le"):
+            continue
+        l, r = st["rv"]["l"], st["rv"]["r"]
+        def is_cap(o):
+            if "BIGINT_MAX_BITS" in (o.get("const") or ""):
+                return True
+            return False
+        if is_cap(r) and st["rv"]["op"] in ("Gt", "Ge"):
+            x, small_edge = l, "false"
+        elif is_cap(l) and st["rv"]["op"] in ("Lt", "Le"):
+            x, small_edge = r, "false"
+        elif is_cap(r) and st["rv"]["op"] in ("Lt", "Le"):
+            x, small_edge = l, "true"
+        elif is_cap(l) and st["rv"]["op"] in ("Gt", "Ge"):
+            x, small_edge = r, "true"
+        else:
+            continue
+        if not (value_depends_on(f, x, root) or value_depends_on(f, x, al)):
+            continue
+        t = f.blocks[bi]["term"]
+        if t["k"] != "switch" or op_local(t["discr"]) != st["place"]["l"]:
+            continue
+        ft = [tg for v, tg in t["targets"] if v == "0"]
+        if not ft:
+            continue
+        edge = ft[0] if small_edge == "false" else t["otherwise"]
+        if f.edge_dominates(bi, edge, block):
+            return True
+    return False
+
+
+def _caller_obligations(prog, T, f, op, audited, out, what):
+    """when `op` in f is computed from f's integer parameters, move the obligation to the call sites; returns False when it is not"""
+    from rules_tab import value_depends_on
+    root = f.raw.get("root") or f.id
+    params = [i for i in range(1, f.arg_count + 1) if (INT_TY.match(f.local_ty(i) or "") or re.match(r"^(std::option::Option<usize>|\(usize, usize\))$", f.local_ty(i) or "")) and value_depends_on(f, op, i)]
+    if not params or f.kind == "Closure":
+        return False
+    callers = []
+    for g in prog.real_fns():
+        for b2, t in g.calls():
+            tg, _ = prog.call_targets(g, t)
+            if f.id in tg:
+                callers.append((g, b2, t))
+    if not callers:
+        return False
+    for g, b2, t in callers:
+        for i in params:
+            if i - 1 >= len(t["args"]):
+                continue
+            a_ = t["args"][i - 1]
+            ac = T.op_class(g, a_)
+            if ac < WORD:
+                continue
+            groot = g.raw.get("root") or g.id
+            ad = _stable(describe_origin(g, g.origin_op(a_))) if op_place(a_) is not None else str(const_int(a_))
+            key = "LIM3|%s|%s<-%s|%s" % (root, f.local_name(i), groot, ad)
+            if _cap_guard(g, b2, a_):
+                out.append((key, g, t["span"], "capped", "%s calls %s behind a test of the argument against BIGINT_MAX_BITS" % (groot, root)))
+            elif key in audited:
+                out.append((key, g, t["span"], "audited", audited[key]))
+            else:
+                out.append((key, g, t["span"], "violation", "%s passes a user-sized value (%s, class %s) as `%s` to %s, %s: time and memory grow with a number the user writes, without the `value is out of supported range` cap" % (groot, ad, CLS[ac], f.local_name(i), root, what)))
+    return True
+
+
 def lim3(run):
-    """user-sized loop bounds: Range{..end} whose end is WORD-class, iterated"""
+    """user-sized loop bounds: an iterated Range{..end} whose end is a user-sized value. When the end is computed from the
+    function's own parameters the obligation moves to each call site that passes a user-sized argument: it must be behind a
+    cap test against BIGINT_MAX_BITS (or be an audited call site)."""
+    from rules_tab import value_depends_on
     prog = run.prog
     T = getattr(run, "_taint", None)
     if T is None:
-        T = Taint(prog, run.table("lim").get("contracts")).solve()
+        T = Taint(prog, run.table("lim").get("contracts"), run.table("lim").get("capped_sources")).solve()
         run._taint = T
+    audited = {e["key"]: e["reason"] for e in run.table("lim").get("lim3_audited", [])}
     out = []
+    n_iter = 0
     for f in prog.real_fns():
         for bi, si, st in f.stmts():
-            if st["k"] == "assign" and st["rv"]["k"] == "agg" and st["rv"].get("agg") == "adt" and st["rv"]["adt"].endswith("ops::Range") and len(st["rv"]["ops"]) == 2:
-                c = T.op_class(f, st["rv"]["ops"][1])
-                if c >= U32 and not st["span"].get("mac"):
-                    d = _stable(describe_origin(f, f.origin_op(st["rv"]["ops"][1])))
-                    root = f.raw.get("root") or f.id
-                    out.append(("LIM3|%s|range-end|%s" % (root, d), f, st["span"], "%s iterates a range whose end (%s) is a user-sized value of class %s: time (and for bit loops, memory) grows with a number the user writes, without a cap" % (root, d, CLS[c])))
+            if not (st["k"] == "assign" and st["rv"]["k"] == "agg" and st["rv"].get("agg") == "adt" and st["rv"]["adt"].endswith("ops::Range") and len(st["rv"]["ops"]) == 2):
+                continue
+            mac = st["span"].get("mac")
+            if mac and "desugaring" not in str(mac):
+                continue
+            if not _range_iterated(f, bi, si, st):
+                continue
+            n_iter += 1
+            endop = st["rv"]["ops"][1]
+            c = T.op_class(f, endop)
+            if c < U32:
+                continue
+            root = f.raw.get("root") or f.id
+            d = _stable(describe_origin(f, f.origin_op(endop)))
+            if _caller_obligations(prog, T, f, endop, audited, out, "which loops that many times bit by bit"):
+                pass
+            else:
+                key = "LIM3|%s|range-end|%s" % (root, d)
+                if key in audited:
+                    out.append((key, f, st["span"], "audited", audited[key]))
+                else:
+                    out.append((key, f, st["span"], "violation", "%s iterates a range whose end (%s) is a user-sized value of class %s: time (and for bit loops, memory) grows with a number the user writes, without a cap" % (root, d, CLS[c])))
+    run.count("lim3_iterated_ranges", n_iter)
+    # stores of user-sized values into fields whose contract caps them
+    n_st = 0
+    for f in prog.real_fns():
+        root = f.raw.get("root") or f.id
+        for bi, si, st in f.stmts():
+            if st["k"] != "assign":
+                continue
+            sites = []
+            rv = st["rv"]
+            if rv["k"] == "agg" and rv.get("agg") == "adt" and rv.get("fields"):
+                short = re.sub(r"<.*$", "", rv["adt"])
+                for name, o in zip(rv["fields"], rv["ops"]):
+                    if (short, name) in T.audit_fld:
+                        sites.append(((short, name), o))
+            pl = st["place"]
+            if pl["p"]:
+                ty = f.local_ty(pl["l"])
+                last = None
+                for pr in pl["p"]:
+                    if isinstance(pr, dict) and "f" in pr and not pr["name"].isdigit():
+                        bt = re.sub(r"<.*$", "", re.sub(r"^&(mut )?", "", ty))
+                        last = (bt, pr["name"])
+                        ty = pr["ty"]
+                    elif isinstance(pr, dict) and "f" in pr:
+                        ty = pr["ty"]
+                    elif pr == "deref":
+                        ty = re.sub(r"^&(mut )?", "", ty)
+                if last in T.audit_fld:
+                    ops_ = rv_operands(rv)
+                    for o in ops_:
+                        sites.append((last, o))
+            for (fld, o) in sites:
+                n_st += 1
+                c = T.op_class(f, o)
+                if c < WORD:
+                    continue
+                d = _stable(describe_origin(f, f.origin_op(o))) if op_place(o) is not None else str(const_int(o))
+                key = "LIM3|store|%s.%s|%s|%s" % (fld[0].rsplit("::", 1)[-1], fld[1], root, d)
+                if _caller_obligations(prog, T, f, o, audited, out, "which makes it the width of a value"):
+                    continue
+                if _cap_guard(f, bi, o):
+                    out.append((key, f, st["span"], "capped", "%s stores a width behind a test against BIGINT_MAX_BITS" % root))
+                elif key in audited:
+                    out.append((key, f, st["span"], "audited", audited[key]))
+                else:
+                    out.append((key, f, st["span"], "violation", "%s stores a user-sized number (%s, class %s) as the width of a value without the BIGINT_MAX_BITS cap: everything that later walks the value bit by bit (output, slices, concatenation) takes that long" % (root, d, CLS[c])))
+    run.count("lim3_capped_field_stores", n_st)
     return out
+
+
+def cap_sources(run):
+    """the functions whose user-number sources the taint treats as capped really cap them: the parsed number flows only
+    through `.ok().filter(|n| n <= BIGINT_MAX_BITS)` (or is used behind such a comparison)"""
+    prog = run.prog
+    R = "LIM3"
+    for c in run.table("lim").get("capped_sources", []):
+        f = run.anchor(R, c["fn"])
+        if f is None:
+            continue
+        srcs = [(bi, t) for bi, t in f.calls() if WORD_SOURCES.search(t.get("resolved") or "") or WORD_SOURCES.search(t.get("callee") or "")]
+        ok = bool(srcs)
+        why = "no user-number source found" if not srcs else ""
+        for bi, t in srcs:
+            # follow the result through Result::ok to Option::filter
+            cur = t["dest"]["l"]
+            filt = None
+            for _ in range(4):
+                nxt = None
+                uses = []
+                for b2, t2 in f.calls():
+                    if any(op_local(a_) == cur for a_ in t2["args"]):
+                        uses.append(t2)
+                for b2, s2, st2 in f.stmts():
+                    if st2["k"] == "assign" and any(op_local(o) == cur for o in rv_operands(st2["rv"])):
+                        uses.append(st2)
+                    if st2["k"] == "assign" and st2["rv"]["k"] in ("ref", "discr") and st2["rv"].get("place", {}).get("l") == cur:
+                        uses.append(st2)
+                if len(uses) != 1 or uses[0].get("k") != "call":
+                    break
+                u = uses[0]
+                cal = u.get("callee") or ""
+                if cal.endswith("Option::<T>::filter"):
+                    filt = u
+                    break
+                if cal.endswith("Result::<T, E>::ok") or KEEP_ARG0.search(cal):
+                    cur = u["dest"]["l"]
+                    continue
+                break
+            good = False
+            if filt is not None:
+                from mir import closure_of_origin
+                cid = closure_of_origin(f.origin_op(filt["args"][1]))
+                g = prog.fn(cid) if cid else None
+                if g is not None:
+                    for b3, s3, st3 in g.stmts():
+                        if st3["k"] == "assign" and st3["place"]["l"] == 0 and st3["rv"]["k"] == "binop" and st3["rv"]["op"] in ("Le", "Lt") and "BIGINT_MAX_BITS" in (st3["rv"]["r"].get("const") or ""):
+                            o = g.origin_op(st3["rv"]["l"])
+                            if "param" in describe_origin(g, o):
+                                good = True
+            if not good:
+                ok = False
+                why = "the number parsed at line %d is not filtered by `<= BIGINT_MAX_BITS` before use" % t["span"]["line"]
+        run.check(ok, R, "LIM3|cap-source|" + c["fn"], f.loc(), "%s keeps a parsed width only when it is <= BIGINT_MAX_BITS" % c["fn"],
+                  "%s: %s; widths would again be limited only by the machine word (bit-by-bit loops of that length, unchecked size sums)" % (c["fn"], why))
 
 
 def lim4(run):
